@@ -32,6 +32,7 @@ package main
 import (
 	"fmt"
 	"go/ast"
+	"go/constant"
 	"go/token"
 	"go/types"
 	"strings"
@@ -59,6 +60,13 @@ var xlDomWhitelist = []xlFunc{
 	{Pkg: "dom", Recv: "listImpl", Name: "Clone", Lean: "listClone", RecFuel: "2 * GoDom.sizeL $0 + 2", RecGroup: "clone"},
 	{Pkg: "dom", Recv: "containerImpl", Name: "Clone", Lean: "containerClone", RecFuel: "2 * GoDom.sizeC $0 + 2", RecGroup: "clone"},
 	{Pkg: "dom", Name: "Clone", Lean: "Clone", Dispatch: "Node", RecFuel: "2 * GoDom.sizeN $1 + 1", RecGroup: "clone"},
+	// dom/container.go: Flatten and its walkers, Search  [C02]
+	{Pkg: "dom", Name: "flattenLeaf", Lean: "domFlattenLeaf", Acc: "ret"},
+	{Pkg: "dom", Name: "flattenList", Lean: "domFlattenList", Acc: "ret", RecFuel: "GoDom.sizeL $1 + 1", RecGroup: "domflatten"},
+	{Pkg: "dom", Name: "flattenContainer", Lean: "domFlattenContainer", Acc: "ret", RecFuel: "GoDom.sizeC $1 + 1", RecGroup: "domflatten"},
+	{Pkg: "dom", Recv: "containerImpl", Name: "Flatten", Lean: "containerFlatten"},
+	{Pkg: "dom", Recv: "containerImpl", Name: "Search", Lean: "containerSearch"},
+	{Pkg: "dom", Recv: "containerImpl", Name: "Lookup", Lean: "containerLookup", NullRes: true},
 	// diff/diff.go  [C07]
 	{Pkg: "diff", Name: "appendMod", Lean: "appendMod", Acc: "res"},
 	{Pkg: "diff", Name: "flattenLeaf", Lean: "flattenLeaf", Acc: "res"},
@@ -118,6 +126,9 @@ func domKind(t types.Type) string {
 		if isStringy(y.Key()) && domKind(y.Elem()) == "node" {
 			return "cont"
 		}
+		if isStringy(y.Key()) && domKind(y.Elem()) == "leaf" {
+			return "leafmap" // map[string]dom.Leaf (the result of Flatten)
+		}
 	case *types.Interface:
 		if y.NumMethods() == 0 {
 			return "any"
@@ -138,6 +149,8 @@ func domKindLean(k string) string {
 		return "GoDom.Leaf"
 	case "any":
 		return "GoDom.Any"
+	case "leafmap":
+		return "GoDom.LeafMap"
 	}
 	return ""
 }
@@ -305,6 +318,14 @@ func (x *xl) domMethod(c *ast.CallExpr, sel *ast.SelectorExpr) ([]string, string
 	if k == "" || k == "any" {
 		return nil, "", false, nil
 	}
+	if fn := x.calleeFunc(c); fn != nil {
+		// a translated CONCRETE method (`c.Flatten()` on a *containerImpl receiver): the generated definition
+		if _, isRec := x.w.recs[fn]; (isRec && x.inGroup[fn]) || x.lookupDone(fn) != nil {
+			if sig := fn.Type().(*types.Signature); sig.Recv() != nil && !types.IsInterface(sig.Recv().Type()) {
+				return nil, "", false, nil
+			}
+		}
+	}
 	m := sel.Sel.Name
 	type ent struct {
 		lean  string
@@ -465,6 +486,21 @@ func (x *xl) domNew(e ast.Expr) ([]string, string, bool, error) {
 			return nil, "GoDom.newContainer", true, nil
 		}
 	}
+	if c, ok := e.(*ast.CallExpr); ok && len(c.Args) == 1 {
+		// make(map[string]Node) / make(map[string]Leaf)
+		if id, ok := c.Fun.(*ast.Ident); ok {
+			if bi, ok := x.p.info.Uses[id].(*types.Builtin); ok && bi.Name() == "make" {
+				if _, isMap := x.typeOf(e).Underlying().(*types.Map); isMap {
+					switch domKind(x.typeOf(e)) {
+					case "cont":
+						return nil, "GoDom.newContainer", true, nil
+					case "leafmap":
+						return nil, "GoDom.newLeafMap", true, nil
+					}
+				}
+			}
+		}
+	}
 	return nil, "", false, nil
 }
 
@@ -563,16 +599,25 @@ func (x *xl) domSimple(s ast.Stmt) ([]string, bool, error) {
 				cf = r.f
 			}
 			if cf != nil && cf.Acc != "" {
-				if x.acc == nil {
-					return nil, true, x.errf(c, "call of %s (it has an accumulator) from a function without one", fn.Name())
+				// the threaded variable: the caller's own accumulator, or `&local`
+				target := ""
+				sig := fn.Type().(*types.Signature)
+				for i := 0; i < sig.Params().Len() && i < len(c.Args); i++ {
+					if sig.Params().At(i).Name() == cf.Acc {
+						if n, ok := x.accArg(c.Args[i]); ok {
+							target = n
+						}
+					}
+				}
+				if target == "" {
+					return nil, true, x.errf(c, "call of %s: its accumulator argument is neither the caller's accumulator nor the address of a local variable", fn.Name())
 				}
 				b, v, err := x.callWhitelisted(c, fn)
 				if err != nil {
 					return nil, true, err
 				}
-				_ = v
-				// callWhitelisted bound the result to a temporary: rebind the accumulator
-				return append(b, fmt.Sprintf("let %s := %s", x.nameOf(x.acc), v)), true, nil
+				// callWhitelisted bound the result to a temporary: rebind the threaded variable
+				return append(b, fmt.Sprintf("let %s := %s", target, v)), true, nil
 			}
 		}
 		sel, ok := c.Fun.(*ast.SelectorExpr)
@@ -636,12 +681,43 @@ func (x *xl) domSimple(s ast.Stmt) ([]string, bool, error) {
 		}
 		return append(lines, fmt.Sprintf("let %s := (%s)", n, strings.Join(parts, " "))), true, nil
 	case *ast.AssignStmt:
+		if y.Tok == token.DEFINE && len(y.Lhs) == 1 && len(y.Rhs) == 1 && x.acc != nil {
+			// `m := *ret` where the accumulator points to a MAP: m is the same map (reference type) — one name
+			if st, ok := y.Rhs[0].(*ast.StarExpr); ok {
+				if id, ok := st.X.(*ast.Ident); ok && x.p.info.Uses[id] == x.acc {
+					if _, isMap := x.typeOf(y.Rhs[0]).Underlying().(*types.Map); isMap {
+						lid, ok := y.Lhs[0].(*ast.Ident)
+						if !ok || x.p.info.Defs[lid] == nil {
+							return nil, true, x.errf(s, "alias of the accumulator map")
+						}
+						x.names[x.p.info.Defs[lid]] = x.nameOf(x.acc)
+						return nil, true, nil
+					}
+				}
+			}
+		}
 		if y.Tok != token.ASSIGN || len(y.Lhs) != 1 || len(y.Rhs) != 1 {
 			return nil, false, nil
 		}
 		switch l := y.Lhs[0].(type) {
 		case *ast.IndexExpr:
 			// m[k] = v on a local Go map
+			if _, isMap := x.typeOf(l.X).Underlying().(*types.Map); isMap && domKind(x.typeOf(l.X)) == "leafmap" {
+				// m[k] = leaf on a local map[string]Leaf (or the alias `m := *ret` of the accumulator)
+				n, _, err := x.localBuilder(l.X, "map assignment")
+				if err != nil {
+					return nil, true, err
+				}
+				bk, k, err := x.expr(l.Index)
+				if err != nil {
+					return nil, true, err
+				}
+				bv, v, err := x.exprTo(y.Rhs[0], x.typeOf(l.X).Underlying().(*types.Map).Elem(), false)
+				if err != nil {
+					return nil, true, err
+				}
+				return append(append(bk, bv...), fmt.Sprintf("let %s := (GoDom.leafMapSet %s %s %s)", n, n, k, v)), true, nil
+			}
 			if _, isMap := x.typeOf(l.X).Underlying().(*types.Map); !isMap || domKind(x.typeOf(l.X)) != "cont" {
 				return nil, false, nil
 			}
@@ -1034,11 +1110,11 @@ func (x *xl) callWhitelisted(c *ast.CallExpr, fn *types.Func) ([]string, string,
 		}
 		a := c.Args[i]
 		if cf.Acc != "" && pv.Name() == cf.Acc {
-			id, ok := a.(*ast.Ident)
-			if !ok || x.acc == nil || info.Uses[id] != x.acc {
-				return nil, "", x.errf(a, "accumulator argument that is not the caller's accumulator")
+			n, ok := x.accArg(a)
+			if !ok {
+				return nil, "", x.errf(a, "accumulator argument that is neither the caller's accumulator nor the address of a local variable")
 			}
-			args = append(args, x.nameOf(x.acc))
+			args = append(args, n)
 			continue
 		}
 		b, v, err := x.exprTo(a, pv.Type(), null[pv.Name()])
@@ -1070,4 +1146,71 @@ func (x *xl) flatParam(n ast.Node, key, typ string) (string, error) {
 	x.touched[nm] = true
 	x.flatPs = append(x.flatPs, xlParam{nm, typ})
 	return nm, nil
+}
+
+// accArg: the Lean name threaded through a callee's accumulator parameter: the caller's own accumulator, or
+// `&v` for a local variable v of the function (not a parameter: nobody else can see it)
+func (x *xl) accArg(a ast.Expr) (string, bool) {
+	if id, ok := a.(*ast.Ident); ok && x.acc != nil && x.p.info.Uses[id] == x.acc {
+		return x.nameOf(x.acc), true
+	}
+	if u, ok := a.(*ast.UnaryExpr); ok && u.Op == token.AND {
+		if id, ok := u.X.(*ast.Ident); ok {
+			if v, ok := x.p.info.Uses[id].(*types.Var); ok && !v.IsField() && v.Parent() != v.Pkg().Scope() && !x.paramObjs[v] && !x.optVars[v] {
+				return x.nameOf(v), true
+			}
+		}
+	}
+	return "", false
+}
+
+// funcValueCall: a call `fn(args)` of a function-valued parameter / local variable (a visitor, a predicate):
+// the function is a Lean parameter of type `… → Go.Res …`
+func (x *xl) funcValueCall(c *ast.CallExpr, id *ast.Ident) ([]string, string, bool, error) {
+	v, ok := x.p.info.Uses[id].(*types.Var)
+	if !ok {
+		return nil, "", false, nil
+	}
+	sig, ok := v.Type().Underlying().(*types.Signature)
+	if !ok {
+		return nil, "", false, nil
+	}
+	if v.IsField() || v.Parent() == v.Pkg().Scope() {
+		return nil, "", true, x.errf(c, "call of the package-level function value %s", id.Name)
+	}
+	if sig.Variadic() || len(c.Args) != sig.Params().Len() {
+		return nil, "", true, x.errf(c, "call of a function value: argument count")
+	}
+	args := []string{x.nameOf(v)}
+	var bs []string
+	for i, a := range c.Args {
+		b, s, err := x.exprTo(a, sig.Params().At(i).Type(), false)
+		if err != nil {
+			return nil, "", true, err
+		}
+		bs, args = append(bs, b...), append(args, s)
+	}
+	bs, t := x.bindTmp(bs, strings.Join(args, " "))
+	return bs, t, true, nil
+}
+
+// domStdlib: standard-library calls with a restricted argument shape
+func (x *xl) domStdlib(c *ast.CallExpr, key string) ([]string, string, bool, error) {
+	switch key {
+	case "strings.Split":
+		// strings.Split(s, sep) for a CONSTANT ONE-CHARACTER separator
+		if len(c.Args) != 2 {
+			return nil, "", true, x.errf(c, "call of %s", key)
+		}
+		tv := x.p.info.Types[c.Args[1]]
+		if tv.Value == nil || tv.Value.Kind() != constant.String || len([]rune(constant.StringVal(tv.Value))) != 1 {
+			return nil, "", true, x.errf(c, "strings.Split with a separator that is not a one-character constant")
+		}
+		b, s, err := x.expr(c.Args[0])
+		if err != nil {
+			return nil, "", true, err
+		}
+		return b, "(GoDom.stringsSplit1 " + s + " " + leanChar([]rune(constant.StringVal(tv.Value))[0]) + ")", true, nil
+	}
+	return nil, "", false, nil
 }
